@@ -163,8 +163,15 @@ def _alarm(signum, frame):
     raise CaseTimeout()
 
 
+# a wall-clock limit for the implementation runs of one check (set by the runner): cases that would start after
+# it are not run and count as timed out — a change that makes every case slow must not turn a quick check into
+# an hour
+DEADLINE = None
+
+
 def _run_cases(args):
-    modname, cases, per_case_s = args
+    modname, cases, per_case_s = args[:3]
+    deadline = args[3] if len(args) > 3 else None
     import importlib
     mod = importlib.import_module(modname)
     # import the implementation before the watchdog is armed: an alarm in the middle of
@@ -178,6 +185,9 @@ def _run_cases(args):
     out = []
     signal.signal(signal.SIGALRM, _alarm)
     for c in cases:
+        if deadline is not None and time.time() > deadline:
+            out.append({'timeout': True, 'skipped': 'deadline'})
+            continue
         signal.setitimer(signal.ITIMER_REAL, per_case_s)
         try:
             obs = mod.run_impl(c)
@@ -206,11 +216,11 @@ def run_impl_cases(modname, cases, per_case_s=5.0, workers=None):
     if len(chunks) == 1:
         ctx = multiprocessing.get_context('fork')
         with ProcessPoolExecutor(1, mp_context=ctx) as ex:
-            return list(ex.map(_run_cases, [(modname, chunks[0], per_case_s)]))[0]
+            return list(ex.map(_run_cases, [(modname, chunks[0], per_case_s, DEADLINE)]))[0]
     ctx = multiprocessing.get_context('fork')
     out = []
     with ProcessPoolExecutor(workers, mp_context=ctx) as ex:
-        for res in ex.map(_run_cases, [(modname, ch, per_case_s) for ch in chunks]):
+        for res in ex.map(_run_cases, [(modname, ch, per_case_s, DEADLINE) for ch in chunks]):
             out.extend(res)
     return out
 
